@@ -73,6 +73,10 @@ template <typename D> void apply_stmt(D &d, const vj::Value &st, const VarTab &v
     d.assume_bool(vt.v(st["x"].i()), op == "bassume" && st["neg"].i() != 0);
   } else if (op == "bselect") {
     d.select_bool(vt.v(st["x"].i()), vt.v(st["c"].i()), vt.v(st["y"].i()), vt.v(st["z"].i()));
+  } else if (op == "cast") {
+    const std::string &f = st["f"].str();
+    d.apply(f == "zext" ? crab::domains::OP_ZEXT : f == "sext" ? crab::domains::OP_SEXT : crab::domains::OP_TRUNC,
+            vt.v(st["x"].i()), vt.v(st["y"].i()));
   } else if (op == "nop") {
   } else {
     std::cerr << "apply_stmt: unknown op " << op << "\n";
